@@ -1,0 +1,36 @@
+//go:build verif
+
+package core
+
+// Contracts for gocv (comment-only; see /verif/DESIGN.md).  No executable code.
+
+// ---- C04: newest revision wins ----
+
+// big-endian value of the first n bytes
+//@ spec rec func be(data []byte, n int) int = n <= 0 ? 0 : be(data, n - 1) * 256 + data[n-1]
+
+//@ func readBigEndianInt results (r)
+//@   property C04, C02
+//@   requires len(data) >= (width > 8 ? 8 : width)
+//@   ensures r == be(data, (old(width) > 8 ? 8 : old(width)))
+//@   loop 0:
+//@     invariant 0 <= i && (width <= 0 ==> i == 0) && (width > 0 ==> i <= width) && width <= 8 && result == be(data, i) && result >= 0
+//@     decreases width - i
+
+// index of the last of the first i tables that defines object n, or -1
+//@ spec rec func lastDef(tables []*XRefTable, i int, n int) int = i <= 0 ? 0 - 1 : (has(tables[i-1].Entries, n) ? i - 1 : lastDef(tables, i - 1, n))
+
+// tables are given oldest first: the merged table maps n to the entry of the LAST table that defines n
+//@ func MergeXRefTables results (merged)
+//@   property C04
+//@   ensures domain: forall n int :: {has(merged.Entries, n)} has(merged.Entries, n) <==> lastDef(tables, len(tables), n) >= 0
+//@   ensures newest_wins: forall n int :: {merged.Entries[n]} has(merged.Entries, n) ==> merged.Entries[n] == tables[lastDef(tables, len(tables), n)].Entries[n]
+//@   ensures trailer: len(tables) > 0 ==> merged.Trailer == tables[len(tables)-1].Trailer
+//@   loop 0:
+//@     invariant forall n int :: {has(merged.Entries, n)} has(merged.Entries, n) <==> lastDef(tables, $i, n) >= 0
+//@     invariant forall n int :: {merged.Entries[n]} has(merged.Entries, n) ==> merged.Entries[n] == tables[lastDef(tables, $i, n)].Entries[n]
+//@     invariant $i > 0 ==> merged.Trailer == tables[$i-1].Trailer
+//@   loop 1:
+//@     invariant forall n int :: {has(merged.Entries, n)} has(merged.Entries, n) <==> (lastDef(tables, entry($i), n) >= 0 || $visited[n])
+//@     invariant forall n int :: {merged.Entries[n]} has(merged.Entries, n) ==> merged.Entries[n] == ($visited[n] ? table.Entries[n] : tables[lastDef(tables, entry($i), n)].Entries[n])
+//@     invariant merged.Trailer == entry(merged.Trailer)
